@@ -28,6 +28,7 @@ from typing import (
     cast,
 )
 
+from sqlfluff.core.errors import SQLParseError
 from sqlfluff.core.helpers.identity import get_next_id
 from sqlfluff.core.helpers.slice import is_zero_slice
 from sqlfluff.core.parser.context import ParseContext
@@ -1354,17 +1355,24 @@ class BaseSegment(metaclass=SegmentMetaclass):
             # Edge case for empty segments which are allowed to be empty.
             return True
         ctx.seed_parse_nodes(len(trimmed_content))
-        rematch = self.match(trimmed_content, 0, ctx)
-        if not rematch.matched_slice == slice(0, len(trimmed_content)):
-            linter_logger.debug(
-                f"Validation Check Fail for {self}.Incomplete Match. "
-                f"\nMatched: {rematch.apply(trimmed_content, parse_context=ctx)}. "
-                f"\nUnmatched: {trimmed_content[rematch.matched_slice.stop :]}."
-            )
+        try:
+            rematch = self.match(trimmed_content, 0, ctx)
+            if not rematch.matched_slice == slice(0, len(trimmed_content)):
+                linter_logger.debug(
+                    f"Validation Check Fail for {self}.Incomplete Match. "
+                    f"\nMatched: {rematch.apply(trimmed_content, parse_context=ctx)}. "
+                    f"\nUnmatched: {trimmed_content[rematch.matched_slice.stop :]}."
+                )
+                return False
+            new_segments = rematch.apply(trimmed_content, parse_context=ctx)
+        except SQLParseError as err:
+            # A parse error while re-parsing (e.g. hitting the parse depth or
+            # parse node limits, or unbalanced brackets) means that we cannot
+            # confirm the new segment is valid.
+            linter_logger.debug(f"Validation Check Fail for {self}. {err.desc()}")
             return False
         opening_unparsables = set(self.recursive_crawl("unparsable"))
         closing_unparsables: set[BaseSegment] = set()
-        new_segments = rematch.apply(trimmed_content, parse_context=ctx)
         for seg in new_segments:
             closing_unparsables.update(seg.recursive_crawl("unparsable"))
         # Check we don't introduce any _additional_ unparsables.
